@@ -10,6 +10,8 @@ import (
 	"strings"
 	"time"
 
+	"golang.org/x/tools/go/ssa"
+
 	"gmqttverif/internal/core"
 	"gmqttverif/internal/rules"
 )
@@ -20,6 +22,7 @@ func main() {
 	repo := flag.String("repo", envOr("VERIF_REPO", "/repo"), "repository to analyse")
 	verif := flag.String("verif", envOr("VERIF_DIR", "/verif"), "verif directory (evidence, out, known findings)")
 	key := flag.String("key", "", "replay: only report this obligation key")
+	dump := flag.String("dumpfn", "", "debug: print the SSA of pkg:func (e.g. server:(*client).publishHandler)")
 	flag.Parse()
 	seed, _ := strconv.ParseInt(os.Getenv("VERIF_SEED"), 10, 64)
 	start := time.Now()
@@ -27,6 +30,19 @@ func main() {
 	if err != nil {
 		fmt.Printf("CHECKER-ERROR load: %v\n", err)
 		os.Exit(2)
+	}
+	if *dump != "" {
+		i := strings.Index(*dump, ":")
+		fn := prog.Func((*dump)[:i], (*dump)[i+1:])
+		var pr func(f *ssa.Function)
+		pr = func(f *ssa.Function) {
+			f.WriteTo(os.Stdout)
+			for _, a := range f.AnonFuncs {
+				pr(a)
+			}
+		}
+		pr(fn)
+		return
 	}
 	known, err := core.LoadKnown(*verif + "/known_findings.json")
 	if err != nil {
